@@ -40,7 +40,9 @@ MANIFEST = {
             'register and internal token-class name (<= 64 each) and random '
             'names up to length 8 are tried in seven name positions; random '
             'strings are pushed through print, variables, macros and light '
-            'names. Layouts and long names are sampled, short names enumerated.',
+            'names. Layouts and long names are sampled, short names enumerated.'
+            ' A quarter of the layouts start with a comment header direct'
+            'ly above the script.',
     'note': 'Reserved set = the documented lower-case keywords, the registers '
             'and H S B K; the 14 built-in function names and the harness\'s '
             'extra built-in `choose` are not tried as names. Known findings '
